@@ -155,6 +155,17 @@ HTTP_REASON = {200: "OK", 400: "Bad Request", 405: "Method Not Allowed", 429: "T
 _rot = [0]
 
 
+# round 9 (seed R): other HTTP response headers of the reply under test (the accessory announces that it hangs up / keeps
+# the link); the plan is a function of the reply and its status, so a replay can name it
+HTTP_HDR_PLANS = [("none", ""), ("connection-close", "Connection: close\r\n"), ("connection-keep-alive", "Connection: keep-alive\r\n"),
+                  ("connection-close-lower", "connection: close\r\n")]
+
+
+def http_hdr_plan(reply, status):
+    reply = bytes(reply or b"")
+    return HTTP_HDR_PLANS[(len(reply) * 7 + sum(reply) + int(status) // 5) % len(HTTP_HDR_PLANS)]
+
+
 def statuses_for(tier):
     """HTTP statuses the IP accessory may send the reply under: 200 plus one rotating 4xx (quick) / all (thorough)"""
     if tier == "quick":
@@ -597,8 +608,10 @@ class Env:
             def writelines(self, payload):
                 self.requests.append(b"".join(payload))
                 body = env.next_reply()                 # ScriptDone propagates through _send_lines
-                status = 200 if env.fed <= env.n_pre else env.final_status
-                head = (f"HTTP/1.1 {status} {HTTP_REASON.get(status, 'X')}\r\nContent-Type: application/pairing+tlv8\r\n"
+                final = env.fed > env.n_pre
+                status = env.final_status if final else 200
+                extra = http_hdr_plan(body, status)[1] if final else ""
+                head = (f"HTTP/1.1 {status} {HTTP_REASON.get(status, 'X')}\r\nContent-Type: application/pairing+tlv8\r\n{extra}"
                         f"Content-Length: {len(body)}\r\n\r\n").encode()
                 self.conn.protocol.data_received(head + bytes(body))
 
